@@ -1,6 +1,7 @@
 import Gca.Driver.Canon
 import Gca.Timeslot
 import Gca.RateLimiter
+import Gca.Props.C19
 import Gca.EventLog
 import Gca.Codec.ServerMap
 import Std.Data.HashMap
@@ -121,6 +122,21 @@ def handleSrv (st : St) (kind : String) (a : Args) (obs : String) : IO St := do
 
 /-! Small stateless families -/
 
+def parseSparse (s : String) (n : Nat) : List Nat :=
+  let pairs := (s.splitOn ",").filterMap (fun e => match e.splitOn "." with
+    | [i, v] => match i.toNat?, v.toNat? with
+      | some i, some v => some (i, v)
+      | _, _ => none
+    | _ => none)
+  let arr := pairs.foldl (fun (acc : Array Nat) (i, v) => acc.setIfInBounds i v) (Array.replicate n 0)
+  arr.toList
+
+def parseWeek (a : Args) : Week :=
+  let devs := ((arg a "devs").splitOn ";").filterMap (fun d => match d.splitOn ":" with
+    | [k, ps, is] => some (⟨(bytesOfHex k).getD [], parseSparse ps weekSlots, parseSparse is weekSlots⟩ : Gca.Dev)
+    | _ => none)
+  ⟨devs, argNat a "tso", argHex a "sig"⟩
+
 def optNat : Option Nat → String | none => "none" | some n => toString n
 
 def handlePure (st : St) (kind : String) (a : Args) (obs : String) : IO St := do
@@ -159,10 +175,22 @@ def handlePure (st : St) (kind : String) (a : Args) (obs : String) : IO St := do
     chk (s!"{hx (Migration.encode m)} {hx (Migration.signingBytes m)}")
   | "codec.reg.sb" => chk (hx (Registration.signingBytes (argHex a "key")))
   | "codec.smap.dec" =>
+    -- the Go decoder builds a map: later entries overwrite earlier ones; compared sorted by key
     chk (match CServer.decodeMap (argHex a "b").length (argHex a "b") with
       | none => "none"
-      | some l => joinWith ";" (l.map (fun e =>
-          s!"{hx e.1},{if e.2.banned then 1 else 0},{hx e.2.loc},{e.2.http},{e.2.tcp},{e.2.udp}")))
+      | some l =>
+        let m : FMap Bytes CServer := l.foldl (fun acc e => FMap.set acc e.1 e.2) []
+        joinWith ";" (sortStrings (m.map (fun e =>
+          s!"{hx e.1},{if e.2.banned then 1 else 0},{hx e.2.loc},{e.2.http},{e.2.tcp},{e.2.udp}"))))
+  | "codec.week.enc" =>
+    let w := parseWeek a
+    chk (s!"{hex64 (fnv64 (hx (Week.encode w)))} {hex64 (fnv64 (hx (Week.signingBytes w)))}")
+  | "codec.stream.dec" =>
+    let b := argHex a "b"
+    chk (match decodeStream (b.length / 68 + 1) b with
+      | none => "none"
+      | some ws => joinWith "#" (ws.map (fun w => week w ++ "/" ++ hx w.sig)))
+  | "crypto.check" => chk "ok"
   | "codec.smap.enc1" =>
     let e : CEntry := (argHex a "key", ⟨arg a "banned" == "1", argHex a "loc", argNat a "http", argNat a "tcp", argNat a "udp"⟩)
     chk (match CServer.encodeMap [e] with | none => "none" | some b => hx b)
@@ -213,8 +241,23 @@ def handleRL (st : St) (kind : String) (a : Args) (obs : String) : IO St := do
   | "rl.allow" =>
     let (s', b) := RL.allow st.rl (argInt a "now")
     let st := { st with rl := s' }
-    let m := (if b then "1" else "0") ++ " " ++ joinWith "," (s'.reqs.map toString)
+    let m := (if b then "1" else "0") ++ " reqs=" ++ joinWith "," (s'.reqs.map toString)
     if m == obs then return st else report st kind m obs
+  | "rl.judge" =>
+    -- concurrent callers: the conclusion of the C19 theorems is evaluated on the implementation's
+    -- admissions (exact times) and rejections (caller-side intervals; only certain violations count)
+    let limit := argInt a "limit"
+    let rate := argInt a "rate"
+    let adm := ((arg a "adm").splitOn ",").filterMap String.toInt?
+    let rej := ((arg a "rej").splitOn ",").filterMap (fun s => match s.splitOn ":" with
+      | [b, e] => match b.toInt?, e.toInt? with
+        | some b, some e => some (b, e)
+        | _, _ => none
+      | _ => none)
+    let bound := adm.all (fun t => decide ((RL.countIn adm (t - rate) t : Int) ≤ max limit 0))
+    let starved := rej.any (fun (b, e) => decide (((adm.filter (fun t => b - rate < t ∧ t ≤ e)).length : Int) < limit))
+    let m := if !bound then "BOUND-EXCEEDED" else if starved then "STARVED" else "ok"
+    if obs.startsWith m then return st else report st kind m obs
   | _ => report st kind "unknown-line-kind" obs
 
 def handleLine (st : St) (line : String) : IO St := do
